@@ -444,19 +444,217 @@ func leakCase(c *ev.Case) {
 	c.Distinct(ev.HashString("leak" + s.describe()))
 }
 
+// reuseCase: one limiter is used for several batches. Between batches a timed
+// Wait may expire while functions are still gated, a batch may be left to drain
+// without any Wait, and the untimed Wait of a batch is started while its
+// functions are still gated: it must not return before they have finished.
+func reuseCase(c *ev.Case) {
+	rng := c.Rng
+	if stuckWaits.Load() >= 3 {
+		c.Add("cases_skipped_after_stuck_waits", 1)
+		return
+	}
+	limit := rng.Pick(1, 2, 3, 4, 6, 0)
+	handler := rng.Chance(3, 4)
+	rounds := rng.Range(2, 5)
+	// this engine runs one case at a time per process, so the goroutine count
+	// tells when every goroutine of a batch (workers, and the helper goroutine a
+	// timed-out Wait leaves parked in WaitGroup.Wait) has gone
+	baseGoroutines := runtime.NumGoroutine()
+	var l *goz.Limiter
+	var hmu sync.Mutex
+	handled := 0
+	if !c.Guard("NewLimiter", func() {
+		l = goz.NewLimiter(limit)
+		if handler {
+			l.SetPanicHandler(func(any) { hmu.Lock(); handled++; hmu.Unlock() })
+		}
+	}) {
+		return
+	}
+	N := limit
+	if N < 1 {
+		N = 3
+	}
+	wantHandled := 0
+	desc := fmt.Sprintf("limit=%d handler=%v rounds=", limit, handler)
+	for round := 0; round < rounds; round++ {
+		nb := rng.Range(1, N) // gated functions: never more than the bound, so every Go() returns
+		nother := rng.Intn(4)
+		// the returning / panicking functions go first: once the gated ones hold
+		// all slots, a further Go() would block until the harness releases them
+		sh := make([]int, 0, nb+nother)
+		for i := 0; i < nother; i++ {
+			sh = append(sh, rng.Pick(kindReturn, kindPanic))
+		}
+		for i := 0; i < nb; i++ {
+			sh = append(sh, kindBlock)
+		}
+		s := &scenario{c: c, limit: limit, N: N, kinds: sh, handler: handler, l: l}
+		n := len(sh)
+		s.exec = make([]atomic.Int32, n)
+		s.entered = make([]atomic.Bool, n)
+		s.finished = make([]atomic.Bool, n)
+		s.gates = make([]chan struct{}, n)
+		for i := range s.gates {
+			s.gates[i] = make(chan struct{})
+		}
+		timed := rng.Chance(1, 2)
+		untimed := round == rounds-1 || rng.Chance(2, 3)
+		desc += fmt.Sprintf("[%d gated+%d other timed=%v wait=%v]", nb, nother, timed, untimed)
+		c.Logf("round %d: %d gated + %d other, timed Wait: %v, untimed Wait: %v", round, nb, nother, timed, untimed)
+		okGo := c.Guard("Go", func() {
+			for i := 0; i < n; i++ {
+				if sh[i] == kindPanic {
+					wantHandled++
+				}
+				l.Go(s.task(i))
+			}
+		})
+		if !okGo {
+			return
+		}
+		allGatedIn := func() bool {
+			for i := 0; i < n; i++ {
+				if sh[i] == kindBlock && !s.entered[i].Load() {
+					return false
+				}
+			}
+			return true
+		}
+		if !waitFor(allGatedIn) {
+			s.stuck("reuse: waiting for the gated functions of a batch to get in", int64(n), int64(nb))
+			s.drain(make([]bool, n))
+			return
+		}
+		if timed {
+			// the gated functions cannot finish, so this Wait can only end by its timeout
+			if !c.Guard("Wait(timeout)", func() { l.Wait(time.Duration(rng.Range(200, 2000)) * time.Microsecond) }) {
+				return
+			}
+			c.Add("timed_waits_expired", 1)
+		}
+		var early atomic.Int32
+		waitDone := make(chan struct{})
+		if untimed {
+			go func() {
+				defer close(waitDone)
+				defer func() { recover() }()
+				l.Wait()
+				for i := 0; i < n; i++ {
+					if !s.finished[i].Load() {
+						early.Store(int32(i) + 1)
+						return
+					}
+				}
+			}()
+			// give a Wait that is going to return early the chance to do so
+			for k := 0; k < 50; k++ {
+				runtime.Gosched()
+			}
+			if rng.Bool() {
+				time.Sleep(100 * time.Microsecond)
+			}
+		}
+		for _, i := range rng.Perm(n) {
+			if sh[i] == kindBlock {
+				close(s.gates[i])
+			}
+		}
+		if untimed {
+			done := func() bool {
+				select {
+				case <-waitDone:
+					return true
+				default:
+					return false
+				}
+			}
+			if !waitFor(done) {
+				c.Run().Inconclusive(fmt.Sprintf("%s[%d] reuse: Wait() did not return after all functions were released", c.Engine, c.Index))
+				return
+			}
+			if e := early.Load(); e != 0 {
+				c.Failf("wait-early", "Wait() returned while function %d of the batch had not finished (round %d of a reused limiter; %s)", e-1, round, desc)
+				return
+			}
+			c.Add("reuse_untimed_waits", 1)
+		} else {
+			// let the batch drain with nobody waiting
+			allDone := func() bool {
+				for i := 0; i < n; i++ {
+					if !s.finished[i].Load() {
+						return false
+					}
+				}
+				return s.inside.Load() == 0
+			}
+			if !waitFor(allDone) {
+				c.Run().Inconclusive(fmt.Sprintf("%s[%d] reuse: batch did not drain", c.Engine, c.Index))
+				return
+			}
+			for k := 0; k < 20; k++ {
+				runtime.Gosched()
+			}
+			time.Sleep(50 * time.Microsecond)
+			c.Add("reuse_drains_without_wait", 1)
+		}
+		// Reusing the limiter while the helper goroutine of an expired timed Wait is
+		// still waking up trips sync.WaitGroup's reuse check (a process-fatal panic
+		// on the unchanged tree, outside this property's statement: see DESIGN 6).
+		// Wait, by event, until the batch's goroutines are gone.
+		if !waitFor(func() bool { return runtime.NumGoroutine() <= baseGoroutines }) {
+			c.Run().Inconclusive(fmt.Sprintf("%s[%d] reuse: goroutines of the batch did not exit", c.Engine, c.Index))
+			return
+		}
+		for i := 0; i < n; i++ {
+			if untimed {
+				if e := s.exec[i].Load(); e != 1 {
+					c.Failf("exec-count", "function %d of round %d was executed %d times (%s)", i, round, e, desc)
+					return
+				}
+			}
+		}
+		if o := s.over.Load(); o > 0 {
+			c.Failf("bound-exceeded", "%d function entries saw more than %d functions inside (%s)", o, N, desc)
+			return
+		}
+	}
+	if handler {
+		hmu.Lock()
+		h := handled
+		hmu.Unlock()
+		if h != wantHandled {
+			c.Failf("handler-values", "panic handler was called %d times for %d panicking functions (%s)", h, wantHandled, desc)
+			return
+		}
+	}
+	c.Add("reuse_scenarios", 1)
+	c.Distinct(ev.HashString(desc))
+	if c.WantSample() {
+		c.Sample("reuse: " + desc)
+	}
+}
+
 func main() {
 	r := ev.New("C19")
 	r.Rule("one case = (limit, task kinds return/block/panic, handler on/off, submitter count, release order) drawn from the seed; tasks are gated by channels; distinct = distinct scenario descriptions")
 	r.Assume("the in-flight counter is incremented as the first and decremented as the last action of each submitted function; an entry that sees more than n inside is the violation witness")
 	r.Assume("Wait() is called after all Go() calls have returned")
+	r.Assume("the statement has no data-race clause: the -race builds are used for their different timing and for runtime fatals only; race reports are counted (race_reports_not_judged), not judged (a timed Wait that expires leaves a goroutine parked in WaitGroup.Wait, which the detector reports when the limiter is reused)")
 	r.Assume("a wait that does not complete within 15 s is a verdict only when the token channel is confirmed full (reflection) while fewer than n functions are inside; otherwise inconclusive")
 	r.CasesProc("scenario", r.N(12000, 300000), ev.Opt{Procs: 8, Workers: 4, AlwaysLog: true, MaxCaseSeconds: 120}, scenarioCase)
 	r.CasesProc("leak", r.N(2000, 50000), ev.Opt{Procs: 4, Workers: 4, AlwaysLog: true, MaxCaseSeconds: 120}, leakCase)
-	r.CasesProc("scenario/race", r.N(3000, 60000), ev.Opt{Bin: "race", Procs: 8, Workers: 2, AlwaysLog: true, MaxCaseSeconds: 120}, scenarioCase)
+	r.CasesProc("reuse", r.N(4000, 100000), ev.Opt{Procs: 12, Workers: 1, AlwaysLog: true, MaxCaseSeconds: 120}, reuseCase)
+	r.CasesProc("reuse/race", r.N(800, 20000), ev.Opt{Bin: "race", Procs: 8, Workers: 1, AlwaysLog: true, MaxCaseSeconds: 120, IgnoreRaces: true}, reuseCase)
+	r.CasesProc("scenario/race", r.N(3000, 60000), ev.Opt{Bin: "race", Procs: 8, Workers: 2, AlwaysLog: true, MaxCaseSeconds: 120, IgnoreRaces: true}, scenarioCase)
 	r.Require("scenarios", 1000)
 	r.Require("bound_tight_observations", 1000)
 	r.Require("panics_handled", 500)
 	r.Require("refills_ok", 300)
 	r.Require("scenarios_default_limit", 50)
+	r.Require("reuse_scenarios", 1000)
+	r.Require("timed_waits_expired", 500)
+	r.Require("reuse_drains_without_wait", 300)
 	r.Finish()
 }
